@@ -4,6 +4,7 @@ package worlds
 
 import (
 	"bytes"
+	"strings"
 	"errors"
 	"fmt"
 	"io"
@@ -123,6 +124,13 @@ func serve(env *core.Env, node, addr string, handle func(c *simnet.Conn)) *simne
 // let every timer of the system expire so that the bubble can end.
 func teardown(env *core.Env, suts ...*sut.SUT) {
 	env.MarkEnd()
+	if env.Mode == "acct" {
+		for _, s := range suts {
+			if s != nil {
+				acctBarrier(env, s)
+			}
+		}
+	}
 	for _, s := range suts {
 		if s != nil {
 			s.RequestShutdown()
@@ -147,3 +155,133 @@ func teardown(env *core.Env, suts ...*sut.SUT) {
 }
 
 func isEOF(err error) bool { return errors.Is(err, io.EOF) }
+
+// acctBarrier (C13): at a quiescent point - all scripted clients are done, the
+// network is drained, idle upstream connections are closed - the documented
+// metric series must agree with the simulator's own ledger.
+func acctBarrier(env *core.Env, s *sut.SUT) {
+	env.Sched.Drain(50000)
+	// let work that outlives its client finish (an origin still composing its answer, retry back-offs):
+	// five simulated minutes exceed every scripted latency; client-facing limits are irrelevant, the clients are gone
+	for i := 0; i < 5; i++ {
+		time.Sleep(time.Minute)
+		env.Sched.Drain(50000)
+	}
+	if s.Transport != nil {
+		s.Transport.CloseIdleConnections()
+	}
+	env.Sched.Drain(50000)
+	synctest.Wait()
+	if s.Registry == nil {
+		return
+	}
+	mfs, err := s.Registry.Gather()
+	if err != nil {
+		env.Fail("acct-gather", "", "gathering metrics failed: %v", err)
+		return
+	}
+	type series struct {
+		labels map[string]string
+		v      float64
+	}
+	fam := map[string][]series{}
+	for _, mf := range mfs {
+		for _, m := range mf.GetMetric() {
+			ls := map[string]string{}
+			for _, lp := range m.GetLabel() {
+				ls[lp.GetName()] = lp.GetValue()
+			}
+			fam[mf.GetName()] = append(fam[mf.GetName()], series{ls, metricValue(m)})
+		}
+	}
+	sum := func(name string) (t float64) {
+		for _, x := range fam[name] {
+			t += x.v
+		}
+		return
+	}
+	// the ledger
+	openAccepted, openDialed := 0, 0
+	for _, ep := range env.Net.Endpoints() {
+		st := ep.State()
+		if st.Closed {
+			continue
+		}
+		if !st.Dialer && st.Local == s.Addr {
+			openAccepted++
+		}
+		if st.Dialer && strings.HasPrefix(st.Local, env.Net.IPOf(s.Node)+":") {
+			openDialed++
+		}
+	}
+	dialRecords := 0
+	for _, d := range env.Net.Dials {
+		if d.From == s.Node && d.Tag == "" {
+			dialRecords++
+		}
+	}
+	feature := "running"
+	if s.Stopped() {
+		feature = "after-shutdown"
+	}
+	// never negative
+	for name, xs := range fam {
+		if strings.HasSuffix(name, "_active") || strings.HasSuffix(name, "_in_flight") {
+			for _, x := range xs {
+				if x.v < 0 {
+					env.Fail("acct-negative-gauge", name, "%s%v = %v", name, x.labels, x.v)
+				}
+			}
+		}
+	}
+	if got := sum("forwarder_listener_cx_active"); int(got) != openAccepted {
+		env.Fail("acct-listener-active", feature, "listener_cx_active = %v, but %d accepted sockets are still open on the proxy side (accepted in total: %d)", got, openAccepted, env.Net.ListenerAccepts(s.Addr))
+	}
+	if acc := env.Net.ListenerAccepts(s.Addr); acc >= 0 {
+		if got := sum("forwarder_listener_cx_total"); int(got) != acc {
+			env.Fail("acct-listener-total", feature, "listener_cx_total = %v, the listener handed out %d connections", got, acc)
+		}
+	}
+	if got := sum("forwarder_dialer_cx_active"); int(got) != openDialed {
+		env.Fail("acct-dialer-active", feature, "dialer_cx_active (all hosts) = %v, but %d dialled sockets are still open on the proxy side", got, openDialed)
+	}
+	if got := sum("forwarder_dialer_cx_total") + sum("forwarder_dialer_retries_total") + sum("forwarder_dialer_errors_total"); int(got) != dialRecords {
+		env.Fail("acct-dialer-total", feature, "dialer_cx_total + dialer_retries_total + dialer_errors_total = %v, the network saw %d connection attempts from the proxy", got, dialRecords)
+	}
+	// (request-level series are not judged once a shutdown has happened: the statement excludes it)
+	if openAccepted == 0 && !s.Stopped() {
+		for _, x := range fam["forwarder_http_requests_in_flight"] {
+			if x.v != 0 {
+				env.Fail("acct-in-flight", x.labels["method"], "no client connection is open, yet http_requests_in_flight%v = %v", x.labels, x.v)
+			}
+		}
+	}
+	// requests_total per (method, code) against what the clients parsed
+	gotTotal := map[string]int{}
+	totalAll := 0
+	for _, x := range fam["forwarder_http_requests_total"] {
+		gotTotal[x.labels["method"]+" "+x.labels["code"]] += int(x.v)
+		totalAll += int(x.v)
+	}
+	clientAll := 0
+	for _, v := range env.AcctResp {
+		clientAll += v
+	}
+	if !env.AcctInexact && openAccepted == 0 && !s.Stopped() {
+		for k, want := range env.AcctResp {
+			if gotTotal[k] != want {
+				env.Fail("acct-requests-total", strings.SplitN(k, " ", 2)[0], "clients parsed %d complete responses for (%s) but http_requests_total says %d (all: clients %v, metric %v)", want, k, gotTotal[k], env.AcctResp, gotTotal)
+			}
+		}
+		for k, v := range gotTotal {
+			if _, ok := env.AcctResp[k]; !ok && v != 0 {
+				env.Fail("acct-requests-total", strings.SplitN(k, " ", 2)[0], "http_requests_total counts %d for (%s), no client received such a response (clients %v)", v, k, env.AcctResp)
+			}
+		}
+		env.Probe("acct_exact_barrier")
+	} else if totalAll < clientAll && !s.Stopped() {
+		env.Fail("acct-requests-total", "undercount", "clients parsed %d complete responses but http_requests_total sums to %d", clientAll, totalAll)
+	}
+	env.Probe("acct_barrier")
+	env.NonTrivial = !env.Failed() && clientAll+dialRecords > 0
+}
